@@ -189,3 +189,204 @@ Proof.
     + eauto.
   - intros x. unfold upd. destruct (Nat.eqb x (cur th)); [constructor | apply H8].
 Qed.
+
+Lemma inv_clone_gen w t th a pool' next' h0 : Inv w -> threads w t = Some th ->
+  next w <= next' -> a < next' ->
+  (forall x, In x pool' -> In x (pool w)) -> NoDup pool' -> ~ In a pool' ->
+  (forall t0 th0 x, threads w t0 = Some th0 -> owns th0 x -> x <> a) ->
+  h0 a = [] -> (forall x, x <> a -> h0 x = heap w x) ->
+  Inv (mkWorld (upd h0 a (copy_into (h0 (cur th)) (h0 a))) pool'
+               (upd (threads w) t (Some (mkThread (cur th) (a :: saved th)))) next').
+Proof.
+  intros [H1 H2 H3 H4 H5 H6 H7 H8] Ht Hle Ha Hsub Hnd Hnp Hfresh Hempty Hsame.
+  assert (Own : forall x, owns (mkThread (cur th) (a :: saved th)) x -> x = a \/ owns th x).
+  { intros x [->|[<-|Hin]]; [right; left; reflexivity | left; reflexivity | right; right; exact Hin]. }
+  constructor; cbn [heap pool threads next].
+  - intros t0 th0 x Ht0 Ho. thr Ht0.
+    + apply Own in Ho as [->|Ho]; [exact Ha | specialize (H1 _ _ _ Ht Ho); lia].
+    + specialize (H1 _ _ _ Ht0 Ho). lia.
+  - intros x Hx. specialize (H2 _ (Hsub _ Hx)). lia.
+  - exact Hnd.
+  - intros x Hx. rewrite upd_other by (intros ->; contradiction).
+    rewrite Hsame by (intros ->; contradiction). apply H4. apply Hsub. exact Hx.
+  - intros t0 th0 x Ht0 Ho Hin. thr Ht0.
+    + apply Own in Ho as [->|Ho]; [contradiction | eapply H5; [exact Ht | exact Ho | apply Hsub; exact Hin]].
+    + eapply H5; [exact Ht0 | exact Ho | apply Hsub; exact Hin].
+  - intros t1 t2 th1 th2 x Ht1 Ht2 Ho1 Ho2. thr Ht1; thr Ht2; try reflexivity.
+    + apply Own in Ho1 as [->|Ho1]; [exfalso; eapply Hfresh; [exact Ht2 | exact Ho2 | reflexivity] | eapply H6; eauto].
+    + apply Own in Ho2 as [->|Ho2]; [exfalso; eapply Hfresh; [exact Ht1 | exact Ho1 | reflexivity] | eapply H6; eauto].
+    + eapply H6; eauto.
+  - intros t0 th0 Ht0. thr Ht0.
+    + cbn [cur saved]. specialize (H7 _ _ Ht). inversion H7 as [|? ? Hn Hl]; subst.
+      constructor; [|constructor; [|exact Hl]].
+      * intros [Heq|Hin]; [eapply Hfresh; [exact Ht | left; reflexivity | symmetry; exact Heq] | contradiction].
+      * intros Hin. eapply Hfresh; [exact Ht | right; exact Hin | reflexivity].
+    + eauto.
+  - intros x. unfold upd. destruct (Nat.eqb_spec x a) as [->|Hne].
+    + rewrite Hempty. rewrite copy_into_empty.
+      * rewrite Hsame by (intros Heq; eapply Hfresh; [exact Ht | left; reflexivity | exact Heq]). apply H8.
+      * rewrite Hsame by (intros Heq; eapply Hfresh; [exact Ht | left; reflexivity | exact Heq]). apply H8.
+    + rewrite Hsame by exact Hne. apply H8.
+Qed.
+
+Lemma inv_step w e : Inv w -> Inv (step w e).
+Proof.
+  intros Hi. destruct e as [t o]. unfold step.
+  destruct o as [ | k v | pick | | | i].
+  - destruct (threads w t) eqn:Et; [exact Hi | apply inv_start; assumption].
+  - destruct (threads w t) as [th|] eqn:Et; [eapply inv_set; eassumption | exact Hi].
+  - destruct (threads w t) as [th|] eqn:Et; [|exact Hi].
+    assert (Fresh : Inv (mkWorld (upd (upd (heap w) (next w) []) (next w)
+                            (copy_into (upd (heap w) (next w) [] (cur th)) (upd (heap w) (next w) [] (next w))))
+                         (pool w) (upd (threads w) t (Some (mkThread (cur th) (next w :: saved th)))) (S (next w)))).
+    { apply inv_clone_gen; try assumption; try lia.
+      - intros x Hx; exact Hx.
+      - apply Hi.
+      - intros Hin. pose proof (I_pool_lt _ Hi _ Hin). lia.
+      - intros t0 th0 x Ht0 Ho ->. pose proof (I_own_lt _ Hi _ _ _ Ht0 Ho). lia.
+      - apply upd_same.
+      - intros x Hx. apply upd_other. exact Hx. }
+    destruct pick as [i|]; [|exact Fresh].
+    destruct (nth_error (pool w) i) as [a|] eqn:En; [|exact Fresh].
+    apply inv_clone_gen; try assumption; try lia.
+    + apply (I_pool_lt _ Hi). eapply nth_error_In; exact En.
+    + intros x Hx. eapply remove_nth_In; exact Hx.
+    + apply remove_nth_NoDup. apply Hi.
+    + apply remove_nth_not_In; [apply Hi | exact En].
+    + intros t0 th0 x Ht0 Ho ->. eapply (I_own_pool _ Hi); [exact Ht0 | exact Ho | eapply nth_error_In; exact En].
+    + apply (I_pool_empty _ Hi). eapply nth_error_In; exact En.
+    + reflexivity.
+  - destruct (threads w t) as [th|] eqn:Et; [|exact Hi].
+    destruct (saved th) as [|a rest] eqn:Es; [exact Hi | eapply inv_restore; eassumption].
+  - destruct (threads w t) as [th|] eqn:Et; [|exact Hi].
+    destruct (saved th) as [|a rest] eqn:Es; [exact Hi | eapply inv_drop; eassumption].
+  - apply inv_gc. exact Hi.
+Qed.
+
+(* ---------- what one parser observes ---------- *)
+Lemma view_ext w w' t th :
+  threads w t = Some th -> threads w' t = Some th ->
+  (forall x, owns th x -> heap w' x = heap w x) -> view w' t = view w t.
+Proof.
+  intros Ht Ht' H. unfold view. rewrite Ht, Ht'. f_equal. f_equal.
+  - apply H. left. reflexivity.
+  - apply map_ext_in. intros x Hx. apply H. right. exact Hx.
+Qed.
+
+Lemma threads_step_other w t o t' : (t' <> t \/ is_gc o = true) -> threads (step w (t, o)) t' = threads w t'.
+Proof.
+  intros Hne. unfold step.
+  destruct o as [ | k v | pick | | | i]; cbn [is_gc] in Hne;
+    try (destruct Hne as [Hne|Hne]; [|discriminate]);
+    repeat match goal with
+    | |- context [match ?x with _ => _ end] => destruct x eqn:?
+    end; cbn [threads]; try reflexivity; try (rewrite upd_other by exact Hne; reflexivity).
+Qed.
+
+Lemma view_step_other w t o t' : Inv w -> (t' <> t \/ is_gc o = true) -> view (step w (t, o)) t' = view w t'.
+Proof.
+  intros Hi Hne.
+  destruct (threads w t') as [th'|] eqn:Et'.
+  2:{ unfold view. rewrite threads_step_other by exact Hne. rewrite Et'. reflexivity. }
+  unfold step. destruct o as [ | k v | pick | | | i]; cbn [is_gc] in Hne;
+    try (destruct Hne as [Hne|Hne]; [|discriminate]).
+  - destruct (threads w t) eqn:Et; [reflexivity|].
+    eapply view_ext; cbn [threads heap]; [exact Et' | rewrite upd_other by exact Hne; exact Et' |].
+    intros x Ho. apply upd_other. pose proof (I_own_lt _ Hi _ _ _ Et' Ho). lia.
+  - destruct (threads w t) as [th|] eqn:Et; [|reflexivity].
+    eapply view_ext; cbn [threads heap]; [exact Et' | exact Et' |].
+    intros x Ho. apply upd_other. intros ->. apply Hne. eapply (I_disj _ Hi); [exact Et' | exact Et | exact Ho | left; reflexivity].
+  - destruct (threads w t) as [th|] eqn:Et; [|reflexivity].
+    assert (Fresh : forall x, owns th' x -> x <> next w) by (intros x Ho ->; pose proof (I_own_lt _ Hi _ _ _ Et' Ho); lia).
+    destruct pick as [i|]; [destruct (nth_error (pool w) i) as [a|] eqn:En|];
+      (eapply view_ext; cbn [threads heap]; [exact Et' | rewrite upd_other by exact Hne; exact Et' |]); intros x Ho.
+    + rewrite upd_other; [reflexivity|]. intros ->. eapply (I_own_pool _ Hi); [exact Et' | exact Ho | eapply nth_error_In; exact En].
+    + rewrite !upd_other by (apply Fresh; exact Ho). reflexivity.
+    + rewrite !upd_other by (apply Fresh; exact Ho). reflexivity.
+  - destruct (threads w t) as [th|] eqn:Et; [|reflexivity].
+    destruct (saved th) as [|a rest] eqn:Es; [reflexivity|].
+    eapply view_ext; cbn [threads heap]; [exact Et' | rewrite upd_other by exact Hne; exact Et' |].
+    intros x Ho. apply upd_other. intros ->. apply Hne. eapply (I_disj _ Hi); [exact Et' | exact Et | exact Ho | left; reflexivity].
+  - destruct (threads w t) as [th|] eqn:Et; [|reflexivity].
+    destruct (saved th) as [|a rest] eqn:Es; [reflexivity|].
+    eapply view_ext; cbn [threads heap]; [exact Et' | rewrite upd_other by exact Hne; exact Et' | reflexivity].
+  - eapply view_ext; cbn [threads heap]; [exact Et' | exact Et' | reflexivity].
+Qed.
+
+Lemma view_step_self w t o : Inv w -> is_gc o = false -> view (step w (t, o)) t = sstep (view w t) o.
+Proof.
+  intros Hi Hg. unfold view at 2.
+  destruct (threads w t) as [th|] eqn:Et.
+  2:{ unfold step. destruct o as [ | k v | pick | | | i]; try discriminate; rewrite Et; cbn [sstep];
+        try (unfold view; rewrite Et; reflexivity).
+      unfold view. cbn [threads heap]. rewrite upd_same. cbn [cur saved map]. rewrite upd_same. reflexivity. }
+  pose proof (I_nodup _ Hi _ _ Et) as Hnd.
+  assert (Hsaved : forall x, In x (saved th) -> x <> cur th).
+  { intros x Hx ->. inversion Hnd; contradiction. }
+  unfold step. destruct o as [ | k v | pick | | | i]; try discriminate; rewrite Et; cbn [sstep scur ssaved].
+  - unfold view. rewrite Et. reflexivity.
+  - unfold view. cbn [threads heap]. rewrite Et. rewrite upd_same. f_equal. f_equal.
+    apply map_ext_in. intros x Hx. apply upd_other. apply Hsaved. exact Hx.
+  - (* clone: the new map holds a copy of the current one whatever the pool handed out *)
+    assert (Gen : forall a pool' next' h0,
+               a <> cur th -> (forall x, In x (saved th) -> x <> a) -> h0 a = [] -> (forall x, x <> a -> h0 x = heap w x) ->
+               view (mkWorld (upd h0 a (copy_into (h0 (cur th)) (h0 a))) pool'
+                             (upd (threads w) t (Some (mkThread (cur th) (a :: saved th)))) next') t =
+               Some (mkS (heap w (cur th)) (heap w (cur th) :: map (heap w) (saved th)))).
+    { intros a pool' next' h0 Hac Has He Hs. unfold view. cbn [threads heap]. rewrite upd_same. cbn [cur saved map].
+      rewrite upd_same, He, (Hs (cur th)) by (intros Heq; apply Hac; symmetry; exact Heq).
+      rewrite copy_into_empty by apply (I_canon _ Hi).
+      rewrite upd_other by (intros Heq; apply Hac; symmetry; exact Heq).
+      rewrite (Hs (cur th)) by (intros Heq; apply Hac; symmetry; exact Heq).
+      f_equal. f_equal. f_equal. apply map_ext_in. intros x Hx.
+      rewrite upd_other by (apply Has; exact Hx). apply Hs. apply Has. exact Hx. }
+    assert (Fresh : forall x, owns th x -> x <> next w) by (intros x Ho ->; pose proof (I_own_lt _ Hi _ _ _ Et Ho); lia).
+    destruct pick as [i|]; [destruct (nth_error (pool w) i) as [a|] eqn:En|].
+    + apply Gen.
+      * intros ->. eapply (I_own_pool _ Hi); [exact Et | left; reflexivity | eapply nth_error_In; exact En].
+      * intros x Hx ->. eapply (I_own_pool _ Hi); [exact Et | right; exact Hx | eapply nth_error_In; exact En].
+      * apply (I_pool_empty _ Hi). eapply nth_error_In; exact En.
+      * reflexivity.
+    + apply Gen.
+      * intros Heq. eapply Fresh; [left; reflexivity | symmetry; exact Heq].
+      * intros x Hx. apply Fresh. right. exact Hx.
+      * apply upd_same.
+      * intros x Hx. apply upd_other. exact Hx.
+    + apply Gen.
+      * intros Heq. eapply Fresh; [left; reflexivity | symmetry; exact Heq].
+      * intros x Hx. apply Fresh. right. exact Hx.
+      * apply upd_same.
+      * intros x Hx. apply upd_other. exact Hx.
+  - destruct (saved th) as [|a rest] eqn:Es; cbn [map].
+    + unfold view. rewrite Et, Es. reflexivity.
+    + unfold view. cbn [threads heap]. rewrite upd_same. cbn [cur saved].
+      inversion Hnd as [|? ? Hn Hl]; subst. inversion Hl as [|? ? Hn2 Hl2]; subst.
+      rewrite upd_other by (intros ->; apply Hn; left; reflexivity).
+      f_equal. f_equal. apply map_ext_in. intros x Hx. apply upd_other. intros ->. apply Hn. right. exact Hx.
+  - destruct (saved th) as [|a rest] eqn:Es; cbn [map].
+    + unfold view. rewrite Et, Es. reflexivity.
+    + unfold view. cbn [threads heap]. rewrite upd_same. reflexivity.
+Qed.
+
+Lemma run_inv h : forall w, Inv w -> Inv (run h w).
+Proof. induction h as [|e h IH]; intros w Hi; [exact Hi | apply IH; apply inv_step; exact Hi]. Qed.
+
+Lemma view_run h t : forall w, Inv w -> view (run h w) t = fold_left sstep (mine t h) (view w t).
+Proof.
+  induction h as [|[t0 o] h IH]; intros w Hi; [reflexivity|].
+  cbn [run fold_left]. fold (run h (step w (t0, o))). rewrite IH by (apply inv_step; exact Hi).
+  unfold mine. cbn [filter fst snd].
+  destruct (Nat.eqb_spec t0 t) as [->|Hne]; cbn [andb].
+  - destruct (is_gc o) eqn:Hg; cbn [negb map fold_left].
+    + rewrite view_step_other by (exact Hi || (right; exact Hg)). reflexivity.
+    + rewrite view_step_self by assumption. reflexivity.
+  - rewrite view_step_other by (exact Hi || (left; intros Heq; apply Hne; symmetry; exact Heq)). reflexivity.
+Qed.
+
+(* every interleaving, every choice of the pool: parser t sees what it would see alone *)
+Theorem isolation h t : view (run h init) t = srun (mine t h).
+Proof. rewrite view_run by exact inv_init. reflexivity. Qed.
+
+(* and the maps in the pool are always empty *)
+Theorem pool_maps_empty h a : In a (pool (run h init)) -> heap (run h init) a = [].
+Proof. apply I_pool_empty. apply run_inv. exact inv_init. Qed.
